@@ -219,9 +219,11 @@ class Walk:
                 self.failure('first-existing',
                              f'{where}: marker says {expect} but info.path is {ev[8]}', 'info-path')
             d = os.path.dirname(expect)
-            if self.obs['syspath'].count(d) != 1:
+            pre = [sub(x, CT) for x in self.case.get('pre_syspath', [])]
+            if self.obs['syspath'].count(d) != (0 if d in pre else 1):
                 self.failure('sys-path', f'{d} appears {self.obs["syspath"].count(d)} times in '
-                             f'sys.path additions {self.obs["syspath"]}', 'sys-path')
+                             f'sys.path additions {self.obs["syspath"]} (already there before: {d in pre})',
+                             'sys-path')
             if f.get('mod'):
                 sibling = d + '/' + f['mod'] + '.py'
                 if sibling in self.mods:
